@@ -16,7 +16,7 @@ import Restful.Lemmas.JsrMatch
 import Restful.Lemmas.StateShape
 import Restful.Lemmas.RouteUnique
 import Restful.Lemmas.SelPath
-import Restful.Lemmas.Translated
+import Restful.Lemmas.TieRequest
 namespace Restful
 namespace Props
 variable (E : ReEnv)
@@ -411,7 +411,7 @@ theorem C01_service_ids_witness :
 -- also: Restful.StateShape.consts_shape
 -- also: Restful.StateShape.routing_shape
 
-/-! The regenerated tie (tools/gotrans → Gen/Translated.lean, Lemmas/Translated.lean). -/
+/-! The regenerated tie (tools/gotrans → Gen/Translated.lean, Lemmas/Tie*.lean). -/
 -- also: Restful.Tie.trim_space_cutset
 -- also: Restful.Tie.selected_route_path
 
